@@ -115,6 +115,7 @@ def do_check(prop: str, root: str, tier: str, write=True, quiet=False, audit=Tru
                 "known_findings_reported": [k.get("what", "") for _, k in knownhits],
                 "info": ctx.info[:50],
                 "inlined_helpers": list(getattr(ctx, "inlined", [])),
+                "renamed_private_attributes": list(getattr(ctx, "field_renames", [])),
                 "checker_cmd": f"/venv/bin/python sa/run.py check {prop} --tier {tier}",
                 "trusted_base": ["CPython ast", "asyncio semantics (A5)", "the rule tables in sa/rules/" + prop.lower() + ".py"],
             },
